@@ -37,7 +37,7 @@ CLAIMED = {
    text="Stateful breadth-first exploration of AAFramework<usize> and AAFramework<String> over 2 labels (depth 11/13) and 3 labels (depth 8/9), from three constructors, every operand combination in every state; every observable compared with a set-based reference after EVERY step of every replay; rejected / redundant updates must leave the concrete state byte-identical.",
    note="identical concrete states have identical futures (no abstraction in the dedup key); depth-bounded because ids grow", ref="4 C12"),
  "C13": dict(engine="E3", technique="exhaustive small-scope enumeration of input byte strings with a three-zone oracle",
-   text="109 M inputs per quick run (3 G thorough): all token strings (<=6/7 tokens), all line sequences (<=5/6 lines, with/without final newline), every single byte/token/line edit of a 12-file corpus, all byte strings of length <=2 (and 3 over 40 bytes), every well-formed file of U(<=3) in a layout menu, one line of every length with one character of every UTF-8 width at every offset <=130 in 7 syntactic positions, for both readers; no panic anywhere, strict-grammar files accepted faithfully (labels, ids, order, attacks), the ill-formedness classes the property lists rejected, files with an undecodable line either rejected or read without dropping any well-formed declaration, read_arg_from_str probed.",
+   text="109 M inputs per quick run (3 G thorough): all token strings (<=6/7 tokens), all line sequences (<=5/6 lines, with/without final newline), every single byte/token/line edit of a 12-file corpus, all byte strings of length <=2 (and 3 over 40 bytes), every well-formed file of U(<=3) in a layout menu, one line of every length with one character of every UTF-8 width at every offset <=130 in 7 syntactic positions, for both readers, and the corpus / line-edit / short line-sequence files also as processes through `crustabri check` (exit status against the same zones); no panic anywhere, strict-grammar files accepted faithfully (labels, ids, order, attacks), the ill-formedness classes the property lists rejected, files with an undecodable line either rejected or read without dropping any well-formed declaration, read_arg_from_str probed.",
    note="the harness zone classifier is the specification; CRLF, irregular spacing, duplicate declarations, exotic number spellings are unspecified on purpose", ref="4 C13, 6"),
  "C14": dict(engine="E2+E3", technique="explicit-state exploration of framework states, each written and read back",
    text="Every unique concrete state of AAFramework<String> reached by the store exploration over three universes of valid Aspartix identifiers is written by AspartixWriter and read back (same labels, order, attack set; output in the strict grammar); every ordered selection of <=3 arguments through both ResponseWriters is byte-compared with the answer grammar and parsed back; statuses byte-exact.",
